@@ -254,7 +254,13 @@ def seq_monitor(ctx, net):
 
 
 # ------------------------------------------------------------------ 2. crash points
+_CHILD_NO = [0]
+
+
 def child(mode, args, env, timeout=60):
+    # every child is a real restart: its own string-hash seed (as any two runs of a program have)
+    _CHILD_NO[0] += 1
+    env = dict(env, PYTHONHASHSEED=str((int(os.environ.get("PYTHONHASHSEED", "0") or 0) + 7919 * _CHILD_NO[0] + 1) % 2**32))
     cmd = [sys.executable, "-m", "vf.checks.c15_child", mode, json.dumps(args)]
     p = subprocess.run(cmd, env=env, timeout=timeout, stdout=subprocess.PIPE, stderr=subprocess.PIPE)
     return p.returncode, p.stdout.decode("utf_8", "replace"), p.stderr.decode("utf_8", "replace")[-400:]
@@ -264,13 +270,32 @@ def crash_monitor(ctx):
     """Shard s takes crash points k = s, s+16, ... and one of the file-operation points."""
     IO_POINTS = ["open-after", "write-half", "write-full-noclose", "close-before-replace", "replace-before", "replace-after"]
     sizes = [""] if ctx.tier == "quick" else ["", "y" * 70000]
+    shm_root = None
+    try:
+        if os.path.isdir("/dev/shm") and os.stat("/dev/shm").st_dev != os.stat(ctx.scratch).st_dev:
+            shm_root = tempfile.mkdtemp(prefix="vf-c15-", dir="/dev/shm")
+    except OSError:
+        shm_root = None
+    try:
+        _crash_points(ctx, sizes, IO_POINTS, shm_root)
+    finally:
+        if shm_root:
+            shutil.rmtree(shm_root, ignore_errors=True)
+
+
+def _crash_points(ctx, sizes, IO_POINTS, shm_root):
     for extra in sizes:
-        points = [("crash-line", {"k": k}) for k in range(1 + ctx.shard, 60, ctx.nshards)]
-        if ctx.shard < len(IO_POINTS):
-            points.append(("crash-io", {"point": IO_POINTS[ctx.shard]}))
+        # "tmp": "other" = the system's temporary directory lies on another file system than the data directory
+        points = [("crash-line", {"k": k, "tmp": "other" if (k // ctx.nshards) % 2 else "same"}) for k in range(1 + ctx.shard, 60, ctx.nshards)]
+        for j in range(ctx.shard, 2 * len(IO_POINTS), ctx.nshards):
+            points.append(("crash-io", {"point": IO_POINTS[j % len(IO_POINTS)], "tmp": "other" if j >= len(IO_POINTS) else "same"}))
         for mode, pargs in points:
             home = tempfile.mkdtemp(prefix="c15crash-", dir=ctx.scratch)
             env = dict(os.environ, HOME=home, XDG_DATA_HOME=home + "/data", XDG_CONFIG_HOME=home + "/config", XDG_CACHE_HOME=home + "/cache")
+            if pargs.get("tmp") == "other" and shm_root is not None:
+                # the system's temporary directory on ANOTHER file system than the data directory (a rename across them is a copy)
+                env["TMPDIR"] = tempfile.mkdtemp(prefix="t", dir=shm_root)
+                ctx.count("crash_runs_with_tmpdir_on_other_filesystem")
             # pre-populate the cache with an OLD profile through the real code path
             old_dt, new_dt, later_dt = dt_text(1), dt_text(5), dt_text(9)
             rc, out, err = child("followup", {"server_dt": old_dt, "later_dt": old_dt, "extra": ""}, env)
@@ -308,6 +333,17 @@ def crash_monitor(ctx):
                     kind = "empty" if data == "" else "truncated" if new_body.startswith(data) or old_body.startswith(data) else "mixed"
                     ctx.violation("crash/cache-left-truncated" if kind != "mixed" else "crash/cache-left-mixed",
                                   f"after {where}: cache file {name} is {kind} ({len(data)} bytes; whole profiles are {len(old_body)} / {len(new_body)})", case)
+            # the follow-up process is a restart: it must find the profile its predecessor left and ask with THAT date, and it must
+            # not start a second cache file next to it
+            whole = [d for d in rep["cache"].values() if d in (old_body, new_body)]
+            if len(rep["cache"]) == 1 and len(whole) == 1 and rep["steps"] and rep["steps"][0].get("asked"):
+                held_dt = prof_date(whole[0].encode("latin_1"))
+                ctx.count("restart_asked_dates_compared")
+                if R.parse_datetime(rep["steps"][0]["asked"]) != held_dt:
+                    ctx.violation("restart/asked-with-wrong-date", f"after {where}: the restarted client asked with {rep['steps'][0]['asked']} although the cache "
+                                  f"held the profile dated {held_dt}", case)
+            if len(rep.get("cache_after", {})) > 1:
+                ctx.violation("restart/more-than-one-cache-file", f"after {where}: cache files {sorted(rep['cache_after'])}", case)
             for i, st in enumerate(rep["steps"]):
                 if "exc" in st:
                     ctx.violation("crash/later-request-fails", f"after {where}: follow-up request {i} failed: {st['exc'][:200]}", case)
